@@ -1,7 +1,7 @@
 //! Generators of the `ser` suite: trees (documents, fragments, unattached elements, single nodes)
 //! decorated with xml:space attributes and repaired / unrepaired namespace scopes, and parameter sets.
 use crate::common::{Rng, Sink};
-use crate::suite_ser::{Params, NAME_WA, NAME_WE};
+use crate::suite_ser::{Domain, Params, NAME_WA, NAME_WE, NS_XMLNS};
 use crate::tree::*;
 
 const SPACE_NAME: usize = 0;
@@ -145,7 +145,15 @@ pub fn gen_params(rng: &mut Rng, elem_names: &[usize]) -> Params {
     Params { cdata, gt: rng.chance(1, 2), indent, decl, doctype }
 }
 
-pub fn gen_tree(rng: &mut Rng, sink: &mut Sink, vocab: &Vocab) -> (GTree, bool) {
+fn node_at_mut<'a>(t: &'a mut GTree, p: &[usize]) -> &'a mut GTree {
+    let mut cur = t;
+    for &i in p {
+        cur = &mut cur.kids[i];
+    }
+    cur
+}
+
+pub fn gen_tree(rng: &mut Rng, sink: &mut Sink, vocab: &Vocab) -> (GTree, Domain) {
     let mut cfg = GenCfg::default_cfg();
     let mut representable = true;
     if rng.chance(1, 6) {
@@ -219,6 +227,31 @@ pub fn gen_tree(rng: &mut Rng, sink: &mut Sink, vocab: &Vocab) -> (GTree, bool) 
             sink.stat("gen.prefix-bound-to-xml-namespace");
         }
     }
+    let mut domain = if representable { Domain::Representable } else { Domain::Outside };
+    if representable && rng.chance(1, 8) {
+        // one step outside the round-trip domain, with a precise expectation
+        let holders: Vec<Vec<usize>> = t.paths().into_iter().filter(|p| matches!(t.at(p).unwrap().v, GValue::Element(_) | GValue::Document)).collect();
+        let elements: Vec<Vec<usize>> = holders.iter().filter(|p| matches!(t.at(p).unwrap().v, GValue::Element(_))).cloned().collect();
+        let kind = rng.below(4);
+        if kind < 2 && !holders.is_empty() {
+            let p = rng.pick(&holders).clone();
+            let v = rng.pick(&["a\rb", "\r", "a\r\nb", "\r\n\r", "x\r"]).to_string();
+            let node = if kind == 0 { GValue::Comment(v) } else { GValue::PI(17, Some(format!("d{}", v))) };
+            let h: &mut GTree = node_at_mut(&mut t, &p);
+            h.kids.push(GTree::leaf(node));
+            domain = Domain::OutsideCrOrRejectedDeclaration;
+            sink.stat(if kind == 0 { "gen.outside.comment-cr" } else { "gen.outside.pi-data-cr" });
+        } else if !elements.is_empty() {
+            let p = rng.pick(&elements).clone();
+            let (prefix, ns) = *rng.pick(&[(5usize, 0usize), (6, 0), (5, NS_XMLNS), (0, NS_XMLNS)]);
+            let h: &mut GTree = node_at_mut(&mut t, &p);
+            if !h.kids.iter().any(|k| matches!(k.v, GValue::Namespace(q, _) if q == prefix)) {
+                h.kids.insert(0, GTree::leaf(GValue::Namespace(prefix, ns)));
+                domain = Domain::OutsideCrOrRejectedDeclaration;
+                sink.stat(if ns == 0 { "gen.outside.prefix-bound-to-empty-uri" } else { "gen.outside.xmlns-namespace-bound" });
+            }
+        }
+    }
     match rng.below(6) {
         0 => sink.stat("gen.scope.as-generated"),
         1 | 2 => {
@@ -230,6 +263,6 @@ pub fn gen_tree(rng: &mut Rng, sink: &mut Sink, vocab: &Vocab) -> (GTree, bool) 
             sink.stat("gen.scope.repaired+undeclared");
         }
     }
-    (t, representable)
+    (t, domain)
 }
 
